@@ -11,7 +11,7 @@ import itertools
 import warnings
 
 from common import Check, coq_eval, coq_string, rng, tier, seed
-from implgraph import StatementTap, abstract_holder, g_astmts, show_roles, dkey
+from implgraph import StatementTap, abstract_holder, g_astmts, g_holder, show_roles, dkey
 
 from sqllineage.core.holders import SQLLineageHolder, StatementLineageHolder
 from sqllineage.core.metadata.dummy import DummyMetaDataProvider
@@ -269,7 +269,7 @@ def main() -> int:
     # ---- T4: SQL scripts ---------------------------------------------------------
     n_scripts = 700 if quick else 6000
     scripts = [gen_script(r, r.choice([1, 2, 2, 3, 3, 4, 5])) for _ in range(n_scripts)]
-    t4 = []
+    t4, gal4 = [], []
     for stmts in scripts:
         sql = ";\n".join(stmts)
         with StatementTap() as tap:
@@ -282,9 +282,16 @@ def main() -> int:
         if impl.startswith("ERR") and len(tap.items) < len(stmts):
             dist["t4_failed_to_analyse"] += 1
             continue
-        abst = [abstract_holder(h) for _, h in tap.of_runner(lr)]
+        hs_ = [h for _, h in tap.of_runner(lr)]
+        abst = [abstract_holder(h) for h in hs_]
         t4.append((stmts, abst, impl))
+        gal4.append("[%s]" % "; ".join(g_holder(h) for h in hs_))
     model4 = coq_eval(HEADER, [f"show_build {g_astmts(a)}" for _, a, _ in t4], shard=300)
+    # refinement (Holder/Refinement.v): its hypothesis wf_holder is evaluated on the implementation's own holders, and the
+    # abstraction defined and proved in Coq (abs_holder) must lead the abstract model to the same answer as the harness's
+    RH = "From SV Require Import Holder.Refinement.\nOpen Scope string_scope."
+    ref4 = coq_eval(RH, ["((if forallb wf_holder %s then \"wf\" else \"NOT-WF\") ++ \"|\" ++ T.show_build (map abs_holder %s))%%string" % (g, g)
+                         for g in gal4], shard=150)
     plain4 = [i for i, x in enumerate(t4) if all(is_plain(a) for a in x[1])]
     spec4 = dict(zip(plain4, coq_eval(HEADER, [f"show_spec {g_astmts(t4[i][1])}" for i in plain4], shard=300)))
     for i, ((stmts, abst, impl), m) in enumerate(zip(t4, model4)):
@@ -296,6 +303,15 @@ def main() -> int:
         if "E=" in impl and "E=;" not in impl:
             ck.nontriv(("t4", tuple(stmts)))
         case = {"suite": "T4-sql-scripts", "script": stmts, "dialect": "ansi", "abstract": abst, "impl": impl, "model": m}
+        wf_flag, _, coq_abs_build = ref4[i].partition("|")
+        dist["t4_wf_holders"] = dist.get("t4_wf_holders", 0) + (wf_flag == "wf")
+        if wf_flag != "wf" and not impl.startswith("ERR"):
+            case["spec"] = "a real holder violates wf_holder, the hypothesis of the refinement theorem c03_full_model_refines"
+            disagreements.append(case)
+        elif coq_abs_build != m and wf_flag == "wf":
+            case["coq_abstraction_result"] = coq_abs_build
+            case["spec"] = "abs_holder (Coq, proved) and the harness's abstraction of the same holders lead the abstract model to different results"
+            disagreements.append(case)
         if any(a["foreign_edges"] for a in abst if not a["renames"]):
             case["spec"] = "holder of a non-RENAME statement has a dataset->dataset edge (model assumption violated)"
             disagreements.append(case)
